@@ -39,6 +39,10 @@ type c17Input struct {
 	TagsCanon   string     `json:"tagsCanon"`   // the same expression in go/build/constraint's own spelling (what gofmt rewrites the line to)
 	TagSets     [][]string `json:"tagSets"`
 	PkgName     string     `json:"pkgName"`
+	// where the two options are written: top (both at the top level) | levels (the boilerplate at the top level,
+	// the tags at package level) | levels-rev | nested (the package sits below a recursive package that
+	// sets the tags; it is listed itself, recursive too, and sets the boilerplate) | nested-rev
+	Layout string `json:"layout,omitempty"`
 }
 
 type c17 struct{}
@@ -202,6 +206,7 @@ func (c17) Generate(c *Ctx) []any {
 				in.TagsCanon = x.String()
 			}
 		}
+		in.Layout = []string{"top", "levels", "nested", "top", "levels-rev", "nested-rev"}[(i/4)%6]
 		// tag sets: none, all, and random subsets
 		custom := []string{"foo", "bar", "integration", "baz_1"}
 		in.TagSets = [][]string{{}, custom}
@@ -269,16 +274,24 @@ func (c17) Run(c *Ctx, raw json.RawMessage) Case {
 		return Case{Oracle: fail("harness", "%v", err)}
 	}
 	defer os.RemoveAll(dir)
+	nested := in.Layout == "nested" || in.Layout == "nested-rev"
+	srcDir := "foo"
+	if nested {
+		srcDir = "grp/foo"
+	}
 	files := map[string]string{
-		"go.mod":     goModText + "\nrequire github.com/stretchr/testify v1.10.0\n",
-		"foo/foo.go": "package foo\n\ntype Doer interface {\n\tDo(x int, ys ...string) (string, error)\n}\n",
+		"go.mod":             goModText + "\nrequire github.com/stretchr/testify v1.10.0\n",
+		srcDir + "/foo.go": "package foo\n\ntype Doer interface {\n\tDo(x int, ys ...string) (string, error)\n}\n",
+	}
+	if nested {
+		files["grp/grp.go"] = "package grp\n\ntype Unmocked struct{ N int }\n"
 	}
 	if b, err := os.ReadFile(filepath.Join(c.Src, "go.sum")); err == nil {
 		files["go.sum"] = string(b)
 	}
 	var cfg strings.Builder
 	fmt.Fprintf(&cfg, "template: %s\nformatter: %s\nforce-file-write: true\n", in.Template, in.Formatter)
-	outFile := "foo/mocks_gen.go"
+	outFile := srcDir + "/mocks_gen.go"
 	if in.Placement == "separate" {
 		fmt.Fprintf(&cfg, "dir: %s\npkgname: %s\nfilename: mocks_gen.go\n", filepath.Join(dir, "out"), in.PkgName)
 		outFile = "out/mocks_gen.go"
@@ -286,26 +299,56 @@ func (c17) Run(c *Ctx, raw json.RawMessage) Case {
 	} else {
 		cfg.WriteString("filename: mocks_gen.go\n")
 	}
-	if in.Boilerplate != nil || in.Expr != nil {
-		cfg.WriteString("template-data:\n")
-		if in.Boilerplate != nil {
-			files["lic/boilerplate.txt"] = *in.Boilerplate
-			p := filepath.Join(dir, "lic", "boilerplate.txt")
-			if in.RelPath {
-				p = "./lic/boilerplate.txt"
-			}
-			fmt.Fprintf(&cfg, "  boilerplate-file: %q\n", p)
+	boilerLine, tagsLine := "", ""
+	if in.Boilerplate != nil {
+		files["lic/boilerplate.txt"] = *in.Boilerplate
+		p := filepath.Join(dir, "lic", "boilerplate.txt")
+		if in.RelPath {
+			p = "./lic/boilerplate.txt"
 		}
-		if in.Expr != nil {
-			fmt.Fprintf(&cfg, "  mock-build-tags: %q\n", in.TagsText)
-		}
+		boilerLine = fmt.Sprintf("boilerplate-file: %q", p)
 	}
-	cfg.WriteString("packages:\n  example.com/m/foo:\n    interfaces:\n      Doer:\n")
+	if in.Expr != nil {
+		tagsLine = fmt.Sprintf("mock-build-tags: %q", in.TagsText)
+	}
+	td := func(indent string, lines ...string) string {
+		out := ""
+		for _, l := range lines {
+			if l != "" {
+				out += indent + "  " + l + "\n"
+			}
+		}
+		if out == "" {
+			return ""
+		}
+		return indent + "template-data:\n" + out
+	}
+	first, second := boilerLine, tagsLine // the less specific / outer level gets `first`
+	if strings.HasSuffix(in.Layout, "-rev") {
+		first, second = tagsLine, boilerLine
+	}
+	switch in.Layout {
+	case "levels", "levels-rev":
+		// the header is per output file: its options are meaningful at the top and at package level
+		cfg.WriteString(td("", first))
+		cfg.WriteString("packages:\n  example.com/m/foo:\n")
+		if x := td("      ", second); x != "" {
+			cfg.WriteString("    config:\n" + x)
+		}
+		cfg.WriteString("    interfaces:\n      Doer:\n")
+	case "nested", "nested-rev":
+		cfg.WriteString("packages:\n  example.com/m/grp:\n    config:\n      recursive: true\n" + td("      ", second))
+		cfg.WriteString("  example.com/m/grp/foo:\n    config:\n      recursive: true\n" + td("      ", first))
+		cfg.WriteString("    interfaces:\n      Doer:\n")
+	default:
+		cfg.WriteString(td("", boilerLine, tagsLine))
+		cfg.WriteString("packages:\n  example.com/m/foo:\n    interfaces:\n      Doer:\n")
+	}
 	files[".mockery.yml"] = cfg.String()
 	if err := writeFiles(dir, files); err != nil {
 		return Case{Oracle: fail("harness", "%v", err)}
 	}
-	tags := []string{"tmpl-" + in.Template, "fmt-" + in.Formatter, "place-" + in.Placement}
+	tags := []string{"tmpl-" + in.Template, "fmt-" + in.Formatter, "place-" + in.Placement, "layout-" + in.Layout}
 	if in.Boilerplate != nil {
 		tags = append(tags, "boilerplate")
 		if !strings.HasSuffix(*in.Boilerplate, "\n") {
